@@ -254,6 +254,18 @@ func rejectedPieces(r *rand.Rand, known, hoisted []string, uniq *int) []N {
 	case k == 4:
 		first = rej("func " + fn + "() {\nreturn 1\n}\n" + vn + " := := 1")
 		mention, again = fn+"()", code(fdecl(fn, 5), ast.ExprStmt(ast.Call(ast.Id(fn))))
+	case k == 5 && len(known) > 0:
+		// the refused input declares the name of an existing global inside a block before it fails: the global
+		// must still be there afterwards
+		g := known[r.Intn(len(known))]
+		first = rej("if true {\n" + g + " := 20\nprint(\"rejected\", " + g + ")\nundefined_name_q\n}")
+		return []N{first, {"kind": "code", "ast": []any{ast.ExprStmt(ast.Call(ast.Id("type"), ast.Id(g)))}, "hoist": []any{}, "declares": false,
+			"src": "type(" + g + ")"}}
+	case k == 6 && len(known) > 0:
+		g := known[r.Intn(len(known))]
+		first = rej("for " + g + " := 0; " + g + " < 1; " + g + "++ {\nundefined_name_q\n}")
+		return []N{first, {"kind": "code", "ast": []any{ast.ExprStmt(ast.Call(ast.Id("type"), ast.Id(g)))}, "hoist": []any{}, "declares": false,
+			"src": "type(" + g + ")"}}
 	default:
 		return []N{rejectedPiece(r, known)}
 	}
@@ -270,7 +282,19 @@ func rejectedPieces(r *rand.Rand, known, hoisted []string, uniq *int) []N {
 func failingPiece(r *rand.Rand) N {
 	mark := 900 + r.Intn(50)
 	var sts []any
-	switch r.Intn(3) {
+	oob := N{"k": "idx", "a": ast.List(), "b": ast.Int(5)} // [][5]: an index error
+	switch r.Intn(7) {
+	case 3:
+		// the failure strikes while operands of the enclosing expression / statement are pending on the stack
+		sts = []any{ast.Print(ast.Int(mark)), ast.ExprStmt(ast.List(ast.Int(1), ast.Int(2), ast.Int(3), oob))}
+	case 4:
+		sts = []any{ast.ExprStmt(ast.Call(ast.Id("print"), ast.Int(mark), ast.Int(8), oob))}
+	case 5:
+		sts = []any{ast.Print(ast.Int(mark)), N{"k": "range", "style": "range", "vars": []any{"_", "pv"}, "c": ast.List(ast.Int(1), ast.Int(2)),
+			"body": []any{ast.ExprStmt(ast.List(ast.Id("pv"), oob))}}}
+	case 6:
+		sts = []any{ast.Print(ast.Int(mark)), ast.ExprStmt(N{"k": "switch", "subj": ast.Int(1), "cases": []any{
+			N{"isdefault": false, "exprs": []any{ast.Int(1)}, "body": []any{ast.ExprStmt(ast.List(ast.Int(4), oob))}}}})}
 	case 0:
 		sts = []any{ast.Print(ast.Int(mark)), ast.ExprStmt(N{"k": "idx", "a": ast.List(), "b": ast.Int(5)}), ast.Print(ast.Int(mark + 1))}
 	case 1:
